@@ -63,10 +63,14 @@ class DemoWorld(world.World):
         FS = env.mod('ZODB.FileStorage.FileStorage').FileStorage
         MS = env.mod('ZODB.MappingStorage').MappingStorage
         DS = env.mod('ZODB.DemoStorage').DemoStorage
-        changes = FS(self.path) if changeskind == 'F' else MS('changes')
         # aim the allocator at ids that exist in the base
         env.RANDOM.script = [1, 2, 1]
-        self.storage = DS(base=base, changes=changes)
+        if changeskind == 'T':
+            # the temporary changes a demo storage makes for itself
+            self.storage = DS(base=base)
+        else:
+            changes = FS(self.path) if changeskind == 'F' else MS('changes')
+            self.storage = DS(base=base, changes=changes)
 
     def _base_obs(self):
         m = self.basew.model
@@ -101,6 +105,11 @@ class DemoWorld(world.World):
             if k == 'pack' and self.push_stack:
                 continue
             ops.append(op)
+            if k == 'pack' and self.basew.model.txns:
+                # the way DB.pack() asks for it: the storage decides about
+                # garbage collection (with nothing in the base, collecting
+                # these root-less objects would be right)
+                ops.append(('packdb',))
         if 'push' in spec.kinds and len(self.push_stack) < 1:
             ops.append(('push',))
         if 'pop' in spec.kinds and self.push_stack:
@@ -128,7 +137,46 @@ class DemoWorld(world.World):
             self.flavor = self.model.flavor = flavor
             self.model.undo_floor = floor
             return 'pop'
+        if op[0] in ('pack', 'packdb'):
+            return self._pack(op, spec)
         return super()._apply(op, spec)
+
+    def _pack(self, op, spec):
+        """Whatever a pack through the demo storage removes, the current
+        state of every object stays (all transactions are older than the
+        pack time); a pack that fails changes nothing at all."""
+        from ZODB.serialize import referencesf
+        m = self.model
+        self.tick()
+
+        def current():
+            return {o: call(self.storage.load, o) for o in m.oids()}
+        pre_cur = current()
+        pre_all = battery.observe(self.storage, m.oids(), m.tids(),
+                                  self.flavor, iter_level=0) \
+            if not self.packed else None
+        if op[0] == 'pack':
+            r = call(self.storage.pack, env.CLOCK.now, referencesf, gc=False)
+        else:
+            r = call(self.storage.pack, env.CLOCK.now, referencesf)
+        post_cur = current()
+        if post_cur != pre_cur:
+            o = [x for x in pre_cur if pre_cur[x] != post_cur[x]][0]
+            self.bad('read', '%s:%s-changed-current-state' % (
+                self.kind, 'failed-pack' if isinstance(r, Exc) else 'pack'),
+                dict(op=op, oid=o, before=repr(pre_cur[o])[:120],
+                     after=repr(post_cur[o])[:120], result=repr(r)[:100]))
+        if isinstance(r, Exc):
+            if pre_all is not None:
+                post_all = battery.observe(self.storage, m.oids(), m.tids(),
+                                           self.flavor, iter_level=0)
+                if post_all != pre_all:
+                    q = [x for x in pre_all if pre_all[x] != post_all.get(x)]
+                    self.bad('read', '%s:failed-pack-changed:%s' % (
+                        self.kind, q[0][0]), dict(op=op, result=repr(r)[:100]))
+            return 'pack-refused:%s' % r.name
+        self.packed = True
+        return 'pack'
 
     def open(self, **kw):
         raise RuntimeError('a demo world is not reopened')
@@ -227,17 +275,21 @@ def run(rep, tier, seed, workers):
     bdepths = (0, 1, 2)
     rep.rule = (
         'for every base history (applied to the base storage directly) and '
-        'every base x changes layering of MappingStorage / FileStorage: all '
+        'every base x changes layering of MappingStorage / FileStorage / '
+        'the temporary changes a demo storage creates itself: all '
         'histories up to the depth through the demo storage over {create, '
         'modify (base and changes objects), two objects, stale store with '
-        'and without resolver, undo, abort after vote, pack, push, pop}; '
+        'and without resolver, undo, abort after vote, pack with gc off, '
+        'pack as DB.pack asks for it, push, pop}; a pack must leave the '
+        'current state of every object as it was, a failing pack '
+        'everything; '
         'after every step: demo battery vs one combined list model, base '
         'battery and files vs their snapshot, new_oid aimed at existing '
         'ids; non-trivial = history with at least one transaction in the '
         'changes layer')
     states = 0
     for base in ('M', 'F'):
-        for changes in ('M', 'F'):
+        for changes in ('M', 'F', 'T'):
             for bd in bdepths:
                 for bh in BASE_HISTS[bd]:
                     cfg = dict(prop='C16', base=base, changes=changes,
